@@ -24,6 +24,8 @@ Calls ==
    \cup {D("Stiefel", m, d, r, o, c, p, b, g) : m \in {"choleskyL", "qr", "polar", "so-exp", "so-cayley", "euler"}, d \in 2..DMax, r \in 1..DMax, o \in 0..1, c \in BOOLEAN, p \in BOOLEAN, b \in BatchSet, g \in Mags}
    \cup {D("QuantumChannel", m, d, r, o, TRUE, p, b, g) : m \in {"choleskyL", "qr", "polar", "so-exp", "so-cayley"}, d \in 2..3, r \in 1..3, o \in 0..1, p \in BOOLEAN, b \in BatchSet, g \in Mags}
    \cup {D("SeparableDensityMatrix", "", d, r, 0, TRUE, p, b, g) : d \in 2..3, r \in 2..3, p \in BOOLEAN, b \in BatchSet, g \in Mags}
+   \* Hermitian operators on A (x) B^k that are invariant under permutations of the B copies (d = dim A, r = dim B, opt = k); no batch option
+   \cup {D(c, "", d, r, k, TRUE, p, 0, g) : c \in {"ABkHermitian", "ABk2localHermitian"}, d \in 2..3, r \in 2..2, k \in 1..2, p \in BOOLEAN, g \in Mags}
 \* the documented domain
 Admissible(c) ==
   CASE c.cls = "PositiveReal" -> ~(c.method = "exp" /\ c.mag = 4)                      \* exp(100) is not representable in single precision; exp is used up to 20
